@@ -35,7 +35,8 @@ Inductive dec :=
 | DTypeFromStr                           (* sliver.type_from_str(d.get(P, None)) : the class's type enum *)
 | DJsonLoads (default_false : bool)      (* json.loads(d[P]) if d.get(P) is not None else None/False *)
 | DCtor (cls : string)                   (* Cls(d[P]) if d.get(P) is not None else None *)
-| DSplitComma (idx : nat).               (* the idx-th of the two parts of d[P].split(',') *)
+| DSplitComma (idx : nat)                (* the idx-th of the two parts of d[P].split(',') *)
+| DRSplitComma (idx : nat).              (* the idx-th of the two parts of d[P].rsplit(',', 1) *)
 
 (* What the setter set_<kw> does with its argument *)
 Inductive setk :=
